@@ -113,6 +113,7 @@ type rePiece struct {
 	lit   *Term // literal text (nil for a group)
 	group bool
 	lazy  bool // (.*?) instead of (.*)
+	dotall bool // under (?s): '.' also matches a newline
 }
 
 const reMetaChars = `\.+?()[]{}|^$`
@@ -139,21 +140,32 @@ func (i *Interp) compileSymbolicRegexp(pat *Term, must bool) value {
 		pieces = append(pieces, rePiece{lit: t})
 	}
 	anchoredStart, anchoredEnd := false, false
+	dotall, atStart := false, true
 	for fi, f := range frags {
 		switch {
 		case f.Const:
 			s := f.S
 			for k := 0; k < len(s); k++ {
 				switch {
-				case s[k] == '^' && fi == 0 && k == 0:
+				case strings.HasPrefix(s[k:], "(?s)") && atStart:
+					dotall = true
+					k += 3
+					continue
+				case s[k] == '^' && fi == 0 && atStart:
 					anchoredStart = true
+					atStart = false
+					if strings.HasPrefix(s[k+1:], "(?s)") {
+						dotall = true
+						k += 4
+					}
+					continue
 				case s[k] == '$' && fi == len(frags)-1 && k == len(s)-1:
 					anchoredEnd = true
 				case strings.HasPrefix(s[k:], "(.*?)"):
-					pieces = append(pieces, rePiece{group: true, lazy: true})
+					pieces = append(pieces, rePiece{group: true, lazy: true, dotall: dotall})
 					k += 4
 				case strings.HasPrefix(s[k:], "(.*)"):
-					pieces = append(pieces, rePiece{group: true})
+					pieces = append(pieces, rePiece{group: true, dotall: dotall})
 					k += 3
 				case s[k] == '\\' && k+1 < len(s):
 					addLit(TStr(s[k+1 : k+2]))
@@ -163,6 +175,7 @@ func (i *Interp) compileSymbolicRegexp(pat *Term, must bool) value {
 				default:
 					addLit(TStr(s[k : k+1]))
 				}
+				atStart = false
 			}
 		case f.Op == "re.quote":
 			addLit(f.Args[0])
@@ -181,7 +194,7 @@ func (i *Interp) compileSymbolicRegexp(pat *Term, must bool) value {
 			parts := i.splitSym(T, TStr("*"), -1)
 			for k, p := range parts {
 				if k > 0 {
-					pieces = append(pieces, rePiece{group: true, lazy: f.Args[2].S == "(.*?)"})
+					pieces = append(pieces, rePiece{group: true, lazy: f.Args[2].S == "(.*?)", dotall: dotall})
 				}
 				addLit(p.(*Term))
 			}
@@ -231,8 +244,10 @@ func (i *Interp) matchWild(pieces []rePiece, name *Term) (*Term, []*Term) {
 	cur := TStr("")
 	ng := 0
 	firstLazy := false
+	dotall := true
 	for _, p := range pieces {
 		if p.group {
+			dotall = dotall && p.dotall
 			if ng == 0 {
 				firstLazy = p.lazy
 			}
@@ -252,11 +267,17 @@ func (i *Interp) matchWild(pieces []rePiece, name *Term) (*Term, []*Term) {
 		l0, l1 := StrLenInt(lits[0]), StrLenInt(lits[1])
 		ok := And(And(StrPrefixOf(lits[0], name), StrSuffixOf(lits[1], name)), IntCmp(">=", n, IntBin("+", l0, l1)))
 		w := StrSubstr(name, l0, IntBin("-", IntBin("-", n, l0), l1))
+		if !dotall { // without (?s) a '.' does not match a newline
+			ok = And(ok, Not(StrContains(w, TStr("\n"))))
+		}
 		return ok, []*Term{w}
 	case 2:
 		l0, l1, l2 := StrLenInt(lits[0]), StrLenInt(lits[1]), StrLenInt(lits[2])
 		mid := StrSubstr(name, l0, IntBin("-", IntBin("-", n, l0), l2))
 		ok := And(And(And(StrPrefixOf(lits[0], name), StrSuffixOf(lits[2], name)), IntCmp(">=", n, IntBin("+", IntBin("+", l0, l1), l2))), StrContains(mid, lits[1]))
+		if !dotall { // (the literals of a harness hold no newline: one in mid is in a group)
+			ok = And(ok, Not(StrContains(mid, TStr("\n"))))
+		}
 		// the first group decides the split: shortest (first occurrence of the middle
 		// literal) when lazy, longest (last occurrence) when greedy
 		if !firstLazy {
